@@ -398,13 +398,21 @@ func Run(sink ribdrv.Sink, c Cfg) (hangs int, err error) {
 		go func(g int) {
 			defer aux.Done()
 			<-start
+			nget := g
 			for {
 				select {
 				case <-stopAux:
 					return
 				default:
 				}
-				gs := srvdrv.NewGetStream(-1)
+				// every other Get of a reader is abandoned after a few responses (the consumer's Send fails): the producer must
+				// let go of whatever it holds, or the sessions' next writes are never answered
+				nget++
+				fail := -1
+				if nget%2 == 0 {
+					fail = 1 + nget%3
+				}
+				gs := srvdrv.NewGetStream(fail)
 				ch := make(chan error, 1)
 				go func() {
 					ch <- srv.Get(&spb.GetRequest{NetworkInstance: &spb.GetRequest_All{All: &spb.Empty{}}, Aft: spb.AFTType_ALL}, gs)
